@@ -215,6 +215,11 @@ def check_network(case, ctx):
         return
     if status == 'warned':
         ctx.label('signalled-by-warning')
+        # asked again on the same object, the failure is signalled again (never answered silently from memory)
+        st_again, _ = solve(eq, case['T'], case['P'])
+        if st_again not in ('warned', 'raised'):
+            ctx.fail('C16.network/non-convergence-not-signalled', 'the first request for T=%r P=%r was signalled, the second on the '
+                     'same object came back as %r' % (case['T'], case['P'], st_again))
         return
     if status == 'silent':
         ctx.fail('C16.network/non-convergence-not-signalled', 'the optimiser reported failure; get_net_comp returned %r '
